@@ -2,6 +2,7 @@ import MuscleModel.Props.C06
 import MuscleModel.Engines.Srv
 import MuscleModel.Reflector.OrderProofs
 import MuscleModel.Reflector.WorkBoundProofs
+import MuscleModel.Props.C05Reach
 
 /-!
 # C07 — One client's traffic can never hang or crash the server
@@ -177,10 +178,21 @@ PROVED, for EVERY tree (sibling names need not even be distinct), matcher, callb
   number of nodes below the root, and by at most the number of sessions in the broadcast fallback — one hostile Message enqueues at most
   `max (nodes below the root) (sessions)` copies (C05 sharpens this to one copy per selected session).
 
+* a node found in the tree is no larger than the tree (`getNode_size_le`), so the traversal from a session's own node is bounded by the
+  size of the whole tree as well (`travSession_bounded_root`): every traversal a client can trigger records fewer visits than the tree has
+  nodes.
+* pattern tests per child (`pattern_tests_bounded`): `checkEntriesCost` is the entry loop of `CheckChildForTraversal` with a counter of the
+  entries it examines (one clause test each); it computes the same state as `checkEntries`, and the counter is at most the number of
+  entries taking part at that level, which is at most `pmNumEntries pm`.
+* in every reachable state (`RReach`, ids pairwise distinct by `session_ids_distinct` of C05) the hypothesis of `send_deliveries_bounded` /
+  `route_deliveries_bounded` is discharged (`cmd_deliveries_bounded_reach`, `route_deliveries_bounded_reach`).
+
 NOT proved here (stays with the harness: `wping` witness after every hostile command, 20 s alarm per op, ASan/UBSan): wall-clock time; the
-cost of one pattern test (`regcomp`/`regexec` for a clause, C15) and of one filter evaluation (C14); the number of pattern tests per child,
-which is at most the number of entries of the matcher (`pmNumEntries`, the length of the list `checkEntries` recurses on — by construction,
-not stated as a theorem); memory.
+cost of one pattern test (`regcomp`/`regexec` for a clause, C15) and of one filter evaluation (C14); the TOTAL number of pattern tests of
+one traversal (expected: (nodes below the root) × `pmNumEntries pm`, since each child is handed to `CheckChildForTraversal` at most once per
+level — the per-child factor is `pattern_tests_bounded`, the per-node factor is the argument of `traversal_visits_bounded`, but the
+product needs a cost-instrumented copy of the whole traversal and is not stated as a theorem); the multi-pattern re-check `MatchesNode`
+(at most one per child, `pmMatchesPath` over one depth group); memory.
 -/
 
 namespace Muscle.Props.C07
@@ -313,5 +325,93 @@ example : (doTraversal exWbAll true 0 cbContinue C05.exSrvTree 4).length = 5 ∧
 /-- deliveries: three sessions on two hosts; session 0 broadcasts: 2 copies (sessions 1 and 2), within the bound (3 sessions). -/
 example : (C05.exBcSv.sessions.map (·.sid)).Nodup ∧ wbTotal C05.exBcSv = 0 ∧ C05.exBcSv.sessions.length = 3 ∧
     wbTotal (runCmd C05.exBcSv 0 (.send 7 [])) = 2 := by decide
+
+/-! ### the whole tree bounds every traversal; pattern tests per child; reachable states -/
+
+/-- a node found in the tree is no larger than the tree -/
+theorem getNode_size_le (sv : Server) (path : List Bytes) (n : Node) (h : getNode sv path = some n) : n.size ≤ sv.root.size :=
+  wb_getNode_size h
+
+theorem nodeAt_size_le (fuel : Nat) (root : Node) (path : List Bytes) (n : Node) (h : nodeAt fuel root path = some n) :
+    n.size ≤ root.size :=
+  wb_nodeAt_size path fuel root n h
+
+/-- the traversal from a session's own node records fewer visits than the WHOLE tree has nodes (whether or not the session node exists) -/
+theorem travSession_bounded_root (sv : Server) (s : Sess) (pm : PM) (cb : Visit → Nat → Node → Bool × Int) :
+    (travSession sv s pm cb).length + 1 ≤ sv.root.size := by
+  obtain ⟨h1, h2, _⟩ := travSession_bounded sv s pm cb
+  cases hn : getNode sv (sessNames s) with
+  | none =>
+    rw [h2 hn]
+    have := wb_cnt_lt_size 0 sv.root
+    simp only [List.length_nil]
+    omega
+  | some n =>
+    have := (h1 n hn).2
+    have := wb_getNode_size hn
+    omega
+
+/-- **Pattern tests per child.**  The instrumented entry loop computes the same state as `checkEntries` and examines at most as many
+    entries as take part at the level, at most `pmNumEntries ctx.pm` (for the entry list `checkChild` passes: `activeEntries`). -/
+theorem pattern_tests_bounded (ctx : TCtx) (rec : Rec) (child : Node) (cn : Visit) (depth : Nat) (known : Option Nat) :
+    (∀ (es : List Entry) (idx : Nat) (st : CState),
+      (checkEntriesCost ctx rec child cn depth known es idx st).1 = checkEntries ctx rec child cn depth known es idx st ∧
+      (checkEntriesCost ctx rec child cn depth known es idx st).2 ≤ es.length) ∧
+    (checkEntriesCost ctx rec child cn depth known (activeEntries ctx.pm (depth - ctx.rootDepth)) 0 {}).2 ≤ pmNumEntries ctx.pm := by
+  refine ⟨wb_checkEntriesCost ctx rec child cn depth known, ?_⟩
+  exact Nat.le_trans (wb_checkEntriesCost ctx rec child cn depth known _ 0 {}).2 (wb_activeEntries_length _ _)
+
+/-- the instrumented loop IS `checkChild` when run the way `checkChild` runs it -/
+theorem pattern_tests_checkChild (ctx : TCtx) (rec : Rec) (child : Node) (names : Visit) (depth : Nat) (known : Option Nat) :
+    checkChild ctx rec child names depth known =
+      ((checkEntriesCost ctx rec child (names ++ [child.name]) depth known (activeEntries ctx.pm (depth - ctx.rootDepth)) 0 {}).1.visits,
+       (checkEntriesCost ctx rec child (names ++ [child.name]) depth known (activeEntries ctx.pm (depth - ctx.rootDepth)) 0 {}).1.abort) := by
+  rw [(wb_checkEntriesCost ctx rec child (names ++ [child.name]) depth known _ 0 {}).1]
+  rfl
+
+/-- **Deliveries of one client-to-client Message in a reachable state**: no hypothesis on the ids. -/
+theorem cmd_deliveries_bounded_reach (sv : Server) (h : RReach sv) (sid tag : Nat) (keys : List Bytes) :
+    wbTotal (runCmd sv sid (.send tag keys)) ≤
+      wbTotal sv + max (descendants fuelDepth sv.root []).length sv.sessions.length :=
+  send_deliveries_bounded sv sid tag keys (C05.session_ids_distinct sv h).1
+
+theorem route_deliveries_bounded_reach (sv : Server) (h : RReach sv) (sid : Nat) (pm : PM) (what : String) :
+    wbTotal (route sv sid pm what) ≤ wbTotal sv + (travGlobal sv pm true (fun _ _ _ => (true, 1))).length ∧
+    wbTotal (route sv sid pm what) ≤ wbTotal sv + (descendants fuelDepth sv.root []).length ∧
+    wbTotal (route sv sid pm what) + 1 ≤ wbTotal sv + sv.root.size :=
+  route_deliveries_bounded sv sid pm what (C05.session_ids_distinct sv h).1
+
+/-- in terms of the size of the tree alone: fewer than `max (nodes of the tree) (sessions + 1)` new lines -/
+theorem cmd_deliveries_bounded_reach_size (sv : Server) (h : RReach sv) (sid tag : Nat) (keys : List Bytes) :
+    wbTotal (runCmd sv sid (.send tag keys)) + 1 ≤ wbTotal sv + max sv.root.size (sv.sessions.length + 1) := by
+  have h1 := cmd_deliveries_bounded_reach sv h sid tag keys
+  have h2 := (traversal_visits_bounded [] true 0 cbContinue sv.root fuelDepth).2
+  have := Nat.le_max_left sv.root.size (sv.sessions.length + 1)
+  have := Nat.le_max_right sv.root.size (sv.sessions.length + 1)
+  rcases Nat.le_total (descendants fuelDepth sv.root []).length sv.sessions.length with hc | hc
+  · rw [Nat.max_eq_right hc] at h1; omega
+  · rw [Nat.max_eq_left hc] at h1; omega
+
+/-- non-vacuity: the three-session state of C05 is reachable -/
+example : RReach C05.exBcSv := .attach _ _ (.attach _ _ (.attach _ _ .init))
+
+/-- two `*/*/*` entries, then `*`: the loop examines all three for a host node (descent at the first, nothing at the second, the callback
+    at the third): the bound `pmNumEntries` is attained.  With `exWbAll` (`*`, `*/*`, `*/*/*`) the loop stops after two entries at the first
+    level (`done`), and only one entry takes part at the third level. -/
+def exWbRev : PM :=
+  [(3, [{ path := [42, 47, 42, 47, 42], clauses := [[42], [42], [42]], filter := none },
+        { path := [1], clauses := [[42], [42], [42]], filter := none }]),
+   (1, [{ path := [42], clauses := [[42]], filter := none }])]
+
+example : pmNumEntries exWbRev = 3 ∧ pmNumEntries exWbAll = 3 ∧
+    (checkEntriesCost { pm := exWbRev, useFilters := true, rootDepth := 0, cb := cbContinue }
+      (travAux { pm := exWbRev, useFilters := true, rootDepth := 0, cb := cbContinue } 3)
+      (.mk [104] none [] [] 0 []) [[104]] 0 none (activeEntries exWbRev 0) 0 {}).2 = 3 ∧
+    (checkEntriesCost { pm := exWbAll, useFilters := true, rootDepth := 0, cb := cbContinue }
+      (travAux { pm := exWbAll, useFilters := true, rootDepth := 0, cb := cbContinue } 3)
+      (.mk [104] none [] [] 0 []) [[104]] 0 none (activeEntries exWbAll 0) 0 {}).2 = 2 ∧
+    (checkEntriesCost { pm := exWbAll, useFilters := true, rootDepth := 0, cb := cbContinue }
+      (travAux { pm := exWbAll, useFilters := true, rootDepth := 0, cb := cbContinue } 1)
+      (.mk [120] none [] [] 0 []) [[104], [115], [120]] 2 none (activeEntries exWbAll 2) 0 {}).2 = 1 := by decide
 
 end Muscle.Props.C07
